@@ -11,6 +11,7 @@ structure D where
   /-- a SetMode whose upward propagation is paused at `updateChildEntry:localDone`: worker, the directory node it
   carries, and whether the root directory's local update is already done (else only /d's) -/
   chFlight : Option (Nat × View × Bool) := none
+  mdir : Bool := false   -- the scratch directory /m of `mvprobe` exists (it shows up in listings of /)
 
 def nW : Nat := 4
 
@@ -22,6 +23,8 @@ def octal (n : Nat) : String := String.ofList (Nat.toDigits 8 n)
 
 def parseOct (t : String) : Option Nat :=
   t.foldl (fun acc c => acc.bind fun a => if c.toNat ≥ 48 && c.toNat < 56 then some (a * 8 + (c.toNat - 48)) else none) (some 0)
+
+def rootListing (d : D) : String := if d.mdir then "c:4,d:0,m:0" else "c:4,d:0"
 
 def busy (d : D) (w : Nat) : Bool :=
   (d.s.ws w).stage.isSome || (d.modePark.map (·.1)) == some w || (d.chmodBlk.map (·.1)) == some w ||
@@ -89,6 +92,13 @@ def doOp (d : D) (ts : List String) : Option (D × String × List (Nat × String
     let f ← f.toNat?
     if busy d w || (d.s.ws w).fd.isSome || d.modePark.isSome || writerOf d.s nW f || readersOf d.s nW f then refused
     else some (d, "started", [(w, "ok")])
+  | ["mvprobe", w, _] => do
+    let w := (← w.toNat?) % nW
+    if busy d w || d.modePark.isSome then refused else
+    -- code as it is (known finding write-lost-after-mv): the File object the descriptor writes to hangs below the
+    -- unlinked directory object; nothing reaches the tree, neither path shows the write. The probe reads the flushed
+    -- root (GetNode of /), which synchronises all link tables.
+    some ({ d with s := rootGetNode d.s, mdir := true }, "started", [(w, "missing,0000,missing,0000")])
   | [op, w, p] =>
     if op == "flush" || op == "close" then do
       let w := (← w.toNat?) % nW
@@ -147,7 +157,7 @@ def doOp (d : D) (ts : List String) : Option (D × String × List (Nat × String
   | ["ls", w] => do
     let w := (← w.toNat?) % nW
     if busy d w || d.modePark.isSome then refused
-    else some ({ d with s := listRoot d.s }, "started", [(w, "c:4,d:0;a:4,b:4")])
+    else some ({ d with s := listRoot d.s }, "started", [(w, rootListing d ++ ";a:4,b:4")])
   | ["pubcat", f] => do
     let f ← f.toNat?
     match d.s.pub with
@@ -171,7 +181,7 @@ def doOp (d : D) (ts : List String) : Option (D × String × List (Nat × String
     if busy d w || d.modePark.isSome || anyFd d.s nW || d.chmodBlk.isSome || d.chFlight.isSome then refused else
     -- listing the root directory calls /d's GetNode (link sync of /d) before the SetMode can get the directory lock
     let s0 := if f < 2 then d.s else listRoot d.s
-    some ({ d with s := chmod s0 f m }, "started", [(w, (if f < 2 then "a:4,b:4" else "c:4,d:0") ++ "/ok")])
+    some ({ d with s := chmod s0 f m }, "started", [(w, (if f < 2 then "a:4,b:4" else rootListing d) ++ "/ok")])
   | [op, w, f, p] =>
     if op == "mode" || op == "mtime" then do
       let w := (← w.toNat?) % nW
